@@ -28,7 +28,9 @@ use crate::c11_snap_total::{
 use crate::{alloc_max_single, alloc_peak, alloc_track_start, burn, ensure, guard, pick, set_fuel, unlimited_fuel, Ctx, Outcome, PResult};
 use libtw2_gamenet_snap as msg;
 use libtw2_snapshot::manager::{Error as MError, Warning as MWarning};
-use libtw2_snapshot::{Manager, Snap};
+use libtw2_packer::Unpacker;
+use libtw2_snapshot::{Delta, Manager, Snap, Storage};
+use libtw2_warn::Ignore;
 use libtw2_warn::Warn;
 use proptest::prelude::*;
 use serde::{Deserialize, Serialize};
@@ -106,7 +108,30 @@ pub enum Op {
 pub struct Case {
     pub start: i32,
     pub table: Table,
+    /// bypass the receiver: bodies are parsed with `Delta::read` and handed to `Storage::add_delta`
+    /// directly (every message is then a single transfer)
+    pub direct: bool,
     pub ops: Vec<Op>,
+}
+
+pub enum Target {
+    Mgr(Manager),
+    Direct(Storage, Delta),
+}
+
+impl Target {
+    fn ack_tick(&self) -> Option<i32> {
+        match self {
+            Target::Mgr(m) => m.ack_tick(),
+            Target::Direct(s, _) => s.ack_tick(),
+        }
+    }
+    fn reset(&mut self) {
+        match self {
+            Target::Mgr(m) => m.reset(),
+            Target::Direct(s, _) => s.reset(),
+        }
+    }
 }
 
 #[derive(Default)]
@@ -178,7 +203,7 @@ fn table_fn(t: Table) -> impl FnMut(u16) -> Option<u32> {
 }
 
 /// One manager call: returns, allocation bound, what an error / an incomplete transfer may do to `ack_tick()`.
-fn call(mgr: &mut Manager, model: &Model, table: Table, what: &str, tick: i32, base: i32, crc: i32, sent: Sent, st: &mut Stats) -> Result<Res, String> {
+fn call(mgr: &mut Target, model: &Model, table: Table, what: &str, tick: i32, base: i32, crc: i32, sent: Sent, st: &mut Stats) -> Result<Res, String> {
     let delta_tick = tick.wrapping_sub(base);
     let input_len = match &sent {
         Sent::Empty => 0,
@@ -191,12 +216,31 @@ fn call(mgr: &mut Manager, model: &Model, table: Table, what: &str, tick: i32, b
     set_fuel((8 * (input_len + pending) + 4096) as i64);
     alloc_track_start();
     let res = guard(|| {
-        let r = match sent {
-            Sent::Empty => mgr.snap_empty(&mut w, table_fn(table), msg::SnapEmpty { tick, delta_tick }),
-            Sent::Single(data) => mgr.snap_single(&mut w, table_fn(table), msg::SnapSingle { tick, delta_tick, crc, data }),
-            Sent::Part { num_parts, part, data } => mgr.snap(&mut w, table_fn(table), msg::Snap { tick, delta_tick, num_parts, part, crc, data }),
-        };
-        r.map(|o| o.cloned())
+        match mgr {
+            Target::Mgr(mgr) => {
+                let r = match sent {
+                    Sent::Empty => mgr.snap_empty(&mut w, table_fn(table), msg::SnapEmpty { tick, delta_tick }),
+                    Sent::Single(data) => mgr.snap_single(&mut w, table_fn(table), msg::SnapSingle { tick, delta_tick, crc, data }),
+                    Sent::Part { num_parts, part, data } => mgr.snap(&mut w, table_fn(table), msg::Snap { tick, delta_tick, num_parts, part, crc, data }),
+                };
+                r.map(|o| o.cloned())
+            }
+            Target::Direct(st, delta) => {
+                let crc = match sent {
+                    Sent::Empty => {
+                        delta.clear();
+                        None
+                    }
+                    Sent::Single(data) | Sent::Part { data, .. } => {
+                        if let Err(e) = delta.read(&mut Ignore, table_fn(table), &mut Unpacker::new(data)) {
+                            return Err(MError::Snap(e));
+                        }
+                        Some(crc)
+                    }
+                };
+                st.add_delta(&mut Ignore, crc, base, tick, delta).map(|s| Some(s.clone())).map_err(MError::Storage)
+            }
+        }
     });
     let peak = alloc_peak();
     let single = alloc_max_single();
@@ -270,9 +314,11 @@ fn expected(from: &Items, body: Option<&[u8]>, table: Table) -> Result<Items, St
 }
 
 /// Everything demanded of a snapshot the manager hands out.
-fn judge(k: &Known, model: &mut Model, table: Table, what: &str, snap: &Snap, tick: i32, base: i32, body: Option<&[u8]>, crc: Option<i32>) -> Result<(usize, bool), String> {
+fn judge(k: &Known, model: &mut Model, table: Table, monotone: bool, what: &str, snap: &Snap, tick: i32, base: i32, body: Option<&[u8]>, crc: Option<i32>) -> Result<(usize, bool), String> {
+    // "messages for ticks older than the newest one seen never complete": a promise of the receiver in
+    // front of the storage; `Storage` driven directly only refuses ticks not newer than what it still holds
     ensure!(
-        model.newest.map(|n| tick > n).unwrap_or(true),
+        !monotone || model.newest.map(|n| tick > n).unwrap_or(true),
         "{}: handed out a snapshot for tick {} although one for tick {:?} was handed out before",
         what,
         tick,
@@ -335,7 +381,7 @@ fn body_bytes(body: &Body, from: &Items, table: Table) -> (Vec<u8>, bool) {
 }
 
 pub fn check_case(k: &Known, c: &Case) -> PResult {
-    let mut mgr = Manager::new();
+    let mut mgr = if c.direct { Target::Direct(Storage::new(), Delta::new()) } else { Target::Mgr(Manager::new()) };
     let mut model = Model { accepted: BTreeMap::new(), newest: None, cur: None };
     let mut st = Stats::default();
     let mut cursor = c.start;
@@ -386,7 +432,7 @@ pub fn check_case(k: &Known, c: &Case) -> PResult {
             CrcSel::Lit(x) => x,
         };
         let mut complete = |model: &mut Model, st: &mut Stats, what: &str, snap: &Snap, b: i32, body: Option<&[u8]>, cr: Option<i32>, multi: bool| -> Result<(), String> {
-            let (n, nonempty_base) = judge(k, model, c.table, what, snap, tick, b, body, cr)?;
+            let (n, nonempty_base) = judge(k, model, c.table, !c.direct, what, snap, tick, b, body, cr)?;
             st.handed_out += 1;
             st.nonempty_base += nonempty_base as usize;
             st.multi += multi as usize;
@@ -395,7 +441,11 @@ pub fn check_case(k: &Known, c: &Case) -> PResult {
             st.hostile_body_handed_out += (hostile_body && body.is_some()) as usize;
             Ok(())
         };
-        match &m.form {
+        let form = match (&m.form, c.direct) {
+            (Form::Multi { .. }, true) => &Form::Single,
+            (f, _) => f,
+        };
+        match form {
             Form::Empty => {
                 let what = format!("op #{} (empty form, tick {}, base {})", i, tick, base);
                 match call(&mut mgr, &model, c.table, &what, tick, base, 0, Sent::Empty, &mut st)? {
@@ -485,7 +535,9 @@ pub fn check_case(k: &Known, c: &Case) -> PResult {
         .class_if(st.hostile_body_handed_out > 0, "handed_out_from_noncanonical_body")
         .class_if(st.warned > 0, "call_warned")
         .class_if(st.incomplete > 0, "incomplete_transfer_step")
-        .class_if(resets > 0, "reset");
+        .class_if(resets > 0, "reset")
+        .class_if(c.direct, "storage_driven_directly")
+        .class_if(c.direct && st.handed_out > 0, "storage_driven_directly_snapshot_handed_out");
     for (name, _) in &st.errors {
         o = o.class(name);
     }
@@ -546,9 +598,10 @@ pub fn case_strategy(max_ops: usize) -> BoxedStrategy<Case> {
     (
         proptest::sample::select(vec![0i32, 1, 5, 1000, i32::MAX - 40, -3, i32::MIN]),
         table_strategy(),
+        proptest::bool::weighted(0.3),
         proptest::collection::vec(op, 0..=max_ops),
     )
-        .prop_map(|(start, table, ops)| Case { start, table, ops })
+        .prop_map(|(start, table, direct, ops)| Case { start, table, direct, ops })
         .boxed()
 }
 
